@@ -128,6 +128,10 @@ def gen_case(seed, i, mode):
         # a later call in the second session (whatever close() left running in the background has fired by then)
         'session2_again': r.choice((0, 0, 0.5, 3.0, 6.0, 30.0)),
     }
+    if not closer and not case['exit_in_prestart'] and mode != 'launchfail' and r.random() < 0.15:
+        # an editor with several projects: other Environments of the same process pre-start and use their own servers
+        # at the same time (each of them, too, gets exactly one)
+        case['neighbours'] = r.choice((1, 2, 3, 4, 5))
     if mode == 'launchfail':
         f = {}
         x = r.random()
@@ -371,6 +375,29 @@ class Run(object):
     def live_procs(self):
         return [p for p in self.world.procs if p.returncode is None]
 
+    def my_procs(self):
+        """Servers launched by the Environment under test (neighbour Environments use another executable name)."""
+        return [p for p in self.world.procs if p.args[0] == 'python-sim']
+
+    def neighbour(self, j):
+        def body():
+            other = remote.Environment(executable='python-other%d' % j)
+            tok = 'n%d' % j
+            try:
+                other.prepare()
+                for _ in range(3 * j):
+                    self.kernel.yield_point(('think',))
+                res = other.eval('return %r' % tok)
+                if res != tok:
+                    self.vio('C16/answers/neighbour', 'call on another Environment returned %r' % (res,))
+                other.close()
+                self.world.count('neighbour_environment_session')
+            except KernelAbort:
+                raise
+            except Exception as e:
+                self.vio('C16/exception/neighbour/%s:%s' % (type(e).__name__, where_in_remote(e)), traceback.format_exc()[-1500:])
+        return body
+
     def exit_during_prestart(self):
         """The client process ends while a pre-start may still be in flight: its main thread returns right after
         prepare(); the interpreter waits for non-daemon threads, abandons daemon threads, and every connection of
@@ -412,6 +439,9 @@ class Run(object):
             return self.exit_during_prestart()
         self.env = env = remote.Environment(executable='python-sim')
         callers = []
+        neighbours = []
+        for j in range(case.get('neighbours') or 0):
+            neighbours.append(k.spawn(self.neighbour(j), 'neighbour%d' % j, group='client', traced=True))
         if case.get('main_prepare'):
             ok, res = self.do_op('main', ['prepare'])
             if not ok and not self.weak:
@@ -419,9 +449,9 @@ class Run(object):
                 self.vio('C16/exception/prepare/%s:%s' % (type(e).__name__, where), tb[-1500:])
         for i, script in enumerate(case['callers']):
             callers.append(k.spawn(self.caller(i, script), 'caller%d' % i, group='client', traced=True))
-        if not self.wait_quiescent(callers, 'callers'):
+        if not self.wait_quiescent(callers + neighbours, 'callers'):
             return
-        for t in callers:
+        for t in callers + neighbours:
             if t.exc is not None:
                 self.vio('C16/harness/caller-crashed', t.exc_text or repr(t.exc))
         used = bool(case.get('main_prepare')) or any(op[0] in ('prepare', 'call') for s in case['callers'] for op in s)
@@ -432,7 +462,11 @@ class Run(object):
             return
 
         # ---- session 1 oracle
-        launches = len(w.procs)
+        for j in range(case.get('neighbours') or 0):
+            n = len([p for p in w.procs if p.args[0] == 'python-other%d' % j])
+            if n != 1:
+                self.vio('C16/launch-count/neighbour/%d' % n, 'another Environment of the process (prepare, call, close) launched %d servers' % n)
+        launches = len(self.my_procs())
         if case.get('closer'):
             # caller 0 may have ended sessions itself: every close() that found a connection allows one more launch
             closes = sum(1 for c in w.client_conns if c.is_closed)
@@ -468,7 +502,7 @@ class Run(object):
             e, where, tb = res
             self.vio('C16/exception/close/%s:%s' % (type(e).__name__, where), tb[-1500:])
         at_once = bool(case.get('session2_at_once')) and case.get('session2', 'none') != 'none'
-        old_procs = list(w.procs)
+        old_procs = self.my_procs()
 
         def old_servers_gone():
             gone = k.block(lambda: not any(p.alive for p in old_procs), 5.0, ('harness', 'wait-exit-after-close'))
@@ -493,7 +527,7 @@ class Run(object):
         s2 = case.get('session2', 'none')
         if s2 == 'none':
             return
-        before = len(w.procs)
+        before = len(self.my_procs())
         vanish_at = case.get('vanish_at', 'idle') if s2 == 'vanish' else None
         state = {'armed': False, 'done': False}
 
@@ -551,7 +585,7 @@ class Run(object):
         if used and at_once:
             # (not stricter than the property: the five seconds start here, after the second session's first call)
             old_servers_gone()
-        launched = len(w.procs) - before
+        launched = len(self.my_procs()) - before
         if launched != 1:
             self.vio('C16/launch-count/session2/%d' % launched, '%d launches for the session after close()' % launched)
         if not state['done']:
@@ -653,7 +687,8 @@ def run_case(case, keep_events=0, record_choices=False):
         if w.counts.get(name):
             faults[name] = w.counts[name]
     for name, n in w.counts.items():
-        if name.startswith('client_vanished_') or name == 'client_exit_during_prestart':
+        if name.startswith('client_vanished_') or name in ('client_exit_during_prestart', 'neighbour_environment_session',
+                                                            'client_reused_while_old_server_exits'):
             faults[name] = n
     if any(d > 0 for d in case['launch_delays'][:len(w.procs)]):
         faults['slow_child_startup'] = 1
